@@ -232,3 +232,49 @@ def _chk_dense(out):
 
 
 scn(name="cpp.dense_local_matrix", func="solvers.amen_solve", props=("C17",), args=None, driver=_wrap(_drv_dense), check=_chk_dense, strict_sizes=True)
+
+
+# --------------------------------------------------------------------------- which preconditioner code reaches the compiled solver
+
+def _drv_prec_code(pv):
+    def drv(it, model):
+        from .scenarios4 import _solve_valid
+        from .torchmodel import function
+        cap = []
+
+        def hook(it2, args, kwargs, fr, node):
+            cap.append(args[-1] if args else None)
+            return VOpaque("cpp-result")
+        it.hooks[("function", "torchttcpp.amen_solve")] = hook
+        _, args, kwargs = _solve_valid(it)
+        kwargs = dict(kwargs)
+        kwargs["preconditioner"] = VNone() if pv is None else VStr(pv)
+        function(it, model.func("solvers.amen_solve").qual, args, kwargs, None, None)
+        if len(cap) != 1:
+            raise Unmodelled(f"the compiled solver was called {len(cap)} times on the path with the backend enabled")
+        u = _unit(model)
+        from ..cpp import defines
+        consts = {}
+        for src in u.files.values():
+            consts.update(defines(src))
+        return VTuple((cap[0], VStr(consts.get({None: "NO_PREC", "c": "C_PREC", "r": "R_PREC"}[pv], "?"))))
+    return drv
+
+
+def _chk_prec_code(pv):
+    def check(out):
+        v = out.value
+        if not (isinstance(v, VTuple) and len(v.items) == 2):
+            return [("result", False, "the dispatch could not be evaluated")]
+        code, want = v.items
+        got = repr(out.facts.norm(code.p)) if isinstance(code, VInt) else type(code).__name__
+        ok = isinstance(code, VInt) and got == want.s
+        return [("code", ok, f"preconditioner {pv!r} reaches the compiled solver as {got}" if ok else
+                 f"for preconditioner {pv!r} the Python wrapper hands the code {got} to the compiled solver, which selects that preconditioner with the code {want.s} "
+                 "(cpp/define.h): the compiled solver runs with another preconditioner than requested")]
+    return check
+
+
+for _pv in (None, "c", "r"):
+    scn(name=f"amen_solve.cpp-dispatch:prec={_pv}", func="solvers.amen_solve", props=("C17",), args=None, driver=_wrap(_drv_prec_code(_pv)),
+        check=_chk_prec_code(_pv), presets={"global _flag_use_cpp": True})
